@@ -458,6 +458,8 @@ private:
         _allocated_bytes = total_allocated_size_in_bytes(dimensions);
         if (_allocated_bytes == 0)
         {
+            // nothing to allocate for a w x 0 or 0 x h image, but it keeps its dimensions (as recreate does)
+            _view = view_t(dimensions, typename view_t::locator());
             return;
         }
 
@@ -479,6 +481,8 @@ private:
         _allocated_bytes = total_allocated_size_in_bytes( dimensions );
         if (_allocated_bytes == 0)
         {
+            // nothing to allocate for a w x 0 or 0 x h image, but it keeps its dimensions (as recreate does)
+            _view = view_t(dimensions, typename view_t::locator());
             return;
         }
 
